@@ -85,7 +85,9 @@ def crash_verdicts(crashed, pid):
     for c in crashed:
         if c.kind == 'harness' or c.culprit is None:
             raise Inconclusive('harness process died (%s): %s' % (c.kind, c[2][-1200:]))
-        out.append({'sid': c.culprit, 'n': 0, 'check': '%s_StoreDied_%s' % (pid, c.kind.replace('-', '_')), 'kf': ''})
+        i = c[2].find('panic:')
+        out.append({'sid': c.culprit, 'n': 0, 'check': '%s_StoreDied_%s' % (pid, c.kind.replace('-', '_')), 'kf': '',
+                    'detail': (c[2][i:i + 1800] if i >= 0 else c[2][-1800:]).replace('\n', ' | ')})
     return out
 
 
@@ -148,7 +150,7 @@ def run_scenarios(testbin, scenarios, work, pkg='store', shards=NCPU, timeout=90
             log = open(os.path.join(work, 'run-%d.log' % i), errors='replace').read()
             done = {sid for sid, evs in traces.items() if evs and evs[-1].get('a') == 'End'}
             culprit = next((sc['id'] for sc in part if sc['id'] not in done), None)
-            crashed.append(Crash(i, rc, log[-2500:], culprit, classify_crash(log)))
+            crashed.append(Crash(i, rc, (log[log.find('panic:'):][:6000] if 'panic:' in log else log[-2500:]), culprit, classify_crash(log)))
         shutil.rmtree(os.path.join(work, 'run-%d' % i), ignore_errors=True)
     return traces, crashed
 
